@@ -9,10 +9,12 @@ import core
 
 core.translate()
 core.coq_makefile()
-ok, out = core.coq_build([], timeout=5400)
+ok, out = core.coq_build(['-k'], timeout=5400)
 print(out[-2000:])
 if not ok:
     print("setup: Coq build failed (checks will report it per property)")
+rc, out = core.run([sys.executable, os.path.join(core.ROOT, "tools", "fastz_selftest.py")], timeout=1800)
+print(out.strip())
 bins = set()
 for p in sorted(glob.glob(os.path.join(core.ROOT, "props", "C*.py"))):
     m = core.load_plugin(os.path.basename(p)[:-3])
